@@ -50,6 +50,18 @@ def body_of(fn):
     return b[0] if b else None
 
 
+def body_expr(fn, what, tr):
+    """the Boolean a function body returns: one return statement, or a chain of `if(c) return x;` ... `return y;`"""
+    body = body_of(fn)
+    if body is None:
+        raise Untranslatable('%s: no body' % what)
+    st = [x for x in kids(body) if not (x.get('kind') == 'DeclStmt' and kids(x) and
+                                       all(d.get('kind') in ('TypeAliasDecl', 'TypedefDecl', 'UsingDecl') for d in kids(x)))]
+    if len(st) == 1 and st[0].get('kind') == 'ReturnStmt' and len(kids(st[0])) == 1:
+        return tr.expr(kids(st[0])[0])
+    return stmts_to_expr(tr, st)
+
+
 def single_return(fn, what):
     body = body_of(fn)
     if body is None:
@@ -199,7 +211,7 @@ def leaf_anyid(out):
                 if n.get('kind') in ('DeclRefExpr', 'MemberExpr', 'CXXMemberCallExpr', 'CXXOperatorCallExpr', 'CXXConstructExpr'):
                     raise Untranslatable('%s: unsupported operand %s' % (name, n.get('kind')))
                 return None
-            texts.append(Tr(atom, 'Z').expr(single_return(f, name)))
+            texts.append(body_expr(f, name, Tr(atom, 'Z')))
         if len(set(texts)) != 1:
             raise Untranslatable('%s: instantiations differ: %s' % (name, texts))
         return texts[0]
